@@ -1,15 +1,34 @@
-// C07: run the real smodels reader (readSmodels) on a byte string with a Recorder attached.
-// Case: N opts len bytes...      opts bit0 = claspExt, bit1 = cEdge, bit2 = cHeuristic, bit3 = filter
+// C07: run the real smodels reader on a byte string with a Recorder attached.
+// Case: N opts len bytes...      opts bit0 = claspExt, bit1 = cEdge, bit2 = cHeuristic, bit3 = filter,
+//                                bit4 = CALLER: 0 = readSmodels / readProgram (accept + parse(Complete)),
+//                                               1 = the step-wise API: accept(); parse(Incremental); while (more()) parse(Incremental);
 // Observation: <encoded calls in delivery order> status line nerr
-//   status 1 = accepted (readSmodels returned 0), 0 = rejected through the error handler, 7 = an exception escaped
+//   status 1 = accepted (the read returned 0), 0 = rejected through the error handler, 7 = an exception escaped
 //   line   = line passed to the error handler (0 when accepted), nerr = number of handler invocations
-// Every other case (reuse::primed, a hash of the case) reads the text with a SmodelsInput OBJECT that has read an accepted primer text before
-// (an incremental one, starting with rule type 90, when the case enables claspExt); the primer's calls are discarded. See reuse.h.
+// The step-wise caller is what ProgramReader offers for incremental programs (ReadMode Incremental is parse()'s DEFAULT argument); it performs
+// the same doParse / skipWs / "invalid extra input" sequence as parse(Complete), so for a correct reader the observation does not depend
+// on bit4 and the model (coq/C07/Model.v run_case) ignores the bit.
+// Every other case (reuse::primed, a hash of the case) reads the text with a SmodelsInput OBJECT that has read - or REFUSED - a primer text
+// before (chosen by the hash among reuse::SMODELS_PRIMERS and, when the case enables claspExt, SMODELS_EXT_PRIMERS); the primer's calls are discarded. See reuse.h.
 #include "rec.h"
 #include "reuse.h"
 #include <potassco/smodels.h>
 static int g_line = 0, g_nerr = 0;
 static int onError(int line, const char*) { g_line = line; ++g_nerr; return 1000 + line; }
+// readProgram with the caller's loop in place of parse(Complete); same error protocol
+static int readStepwise(std::istream& in, Potassco::ProgramReader& reader, Potassco::ErrorHandler err) {
+	try {
+		if (!reader.accept(in) || !reader.parse(Potassco::ProgramReader::Incremental)) { Potassco::BufferedStream::fail(reader.line(), "invalid input format"); }
+		while (reader.more()) {
+			if (!reader.parse(Potassco::ProgramReader::Incremental)) { Potassco::BufferedStream::fail(reader.line(), "invalid input format"); }
+		}
+	}
+	catch (const std::exception& e) {
+		if (!err) { throw; }
+		return err(reader.line(), e.what());
+	}
+	return 0;
+}
 int main() {
 	Case c; Obs o;
 	while (readCase(c)) {
@@ -25,17 +44,19 @@ int main() {
 		if (opts & 2) op.convertEdges();
 		if (opts & 4) op.convertHeuristic();
 		if (opts & 8) op.dropConverted();
+		const bool stepwise = (opts & 16) != 0;
 		std::istringstream is(in);
-		std::istringstream primer((opts & 1) ? reuse::SMODELS_PRIMER_EXT : reuse::SMODELS_PRIMER);
+		std::istringstream primer(std::string(primed ? reuse::smodelsPrimer(c, (opts & 1) != 0).text : ""));
 		g_line = 0; g_nerr = 0;
 		int status = 7;
 		try {
 			Recorder rec(o);
 			int r;
-			if (primed) {
+			if (primed || stepwise) {
 				Potassco::SmodelsInput reader(rec, op);
-				reuse::prime(reader, primer); o.s.clear();    // o is empty at this point: only the primer's calls are dropped
-				r = Potassco::readProgram(is, reader, &onError); // = readSmodels on an existing reader object
+				if (primed) { reuse::prime(reader, primer); o.s.clear(); } // o is empty at this point: only the primer's calls are dropped
+				r = stepwise ? readStepwise(is, reader, &onError)
+				             : Potassco::readProgram(is, reader, &onError); // = readSmodels on an existing reader object
 			}
 			else { r = Potassco::readSmodels(is, rec, &onError, op); }
 			status = r == 0 ? 1 : 0;
